@@ -67,7 +67,14 @@ class Data:
                     if isinstance(self.until_marker, bytes) else
                     b"(?:" + self.until_marker.pattern + b")"
                 )
-                fragments.append(custom_regexp + endswith, is_literal=False)
+                if self.include_delimiter and value.regexp is not None:
+                    # the value holds its delimiter: the conditions of the
+                    # placeholder already speak about it
+                    fragments.append(custom_regexp, is_literal=False)
+                else:
+                    fragments.append(
+                        custom_regexp + endswith, is_literal=False
+                    )
 
         return fragments
 
